@@ -908,8 +908,9 @@ fn conformance(args: &Args) -> ! {
             let mut last_conn = t0;
             if with_conn {
                 std::thread::sleep(Duration::from_millis(500));
-                let _ = talk(&a, &[vh::refmodel::Req::new(Kind::Echo, Flag::None, "x").bytes()]);
+                // taken *before* connecting: the accept happens later, so the bound below can only be exceeded
                 last_conn = Instant::now();
+                let _ = talk(&a, &[vh::refmodel::Req::new(Kind::Echo, Flag::None, "x").bytes()]);
             }
             let (r, t_end) = h.join().unwrap();
             let case = json!({"conformance": "real-time", "scenario": name});
